@@ -55,6 +55,8 @@ inductive Op (R : Type) where
   | controlled (conds : List Cond) (op : Op R)
   | kraus (ks : List (Array R)) (axes : List Nat)
   | reset (axes : List Nat)
+  /-- projective measurement of an observable given by its eigen-projectors (outcome `i` ↔ `projs[i]`) -/
+  | pmeasure (key : String) (projs : List (Array R)) (axes : List Nat)
 
 structure Branch (R : Type) where
   state : Array R
@@ -113,6 +115,10 @@ def stepOp (shape : List Nat) (b : Branch R) : Op R → List (Branch R)
           let idx := unflatten shape p.val
           if getAxes idx axes == dims.map (fun _ => 0) then st.getD (flatIndex shape (setAxes idx axes a)) 0 else 0)
         some { b with state := moved })
+  | .pmeasure key projs axes =>
+    projs.zipIdx.filterMap (fun (pm, i) =>
+      let st := stepArr shape b.state { matrix := pm, axes := axes }
+      if negligible (normSq nsq st) then none else some { b with state := st, records := recAppend b.records key [i] })
 
 def run (shape : List Nat) (init : Array R) (ops : List (Op R)) : List (Branch R) :=
   ops.foldl (fun bs op => bs.flatMap (fun b => stepOp nsq negligible shape b op)) [{ state := init, records := [], cw := 1 }]
@@ -153,6 +159,8 @@ def stepDM (shape : List Nat) (rho : Array R) : Op R → Array R
     let d := shapeSize dims
     let projs : List (Array R) := (List.range d).map (fun a =>
       Array.ofFn (n := d * d) (fun p => if p.val / d = a ∧ p.val % d = a then 1 else 0))
+    projs.foldl (fun acc k => addArr acc (applyKrausDM conj shape rho k axes)) (Array.replicate rho.size 0)
+  | .pmeasure _ projs axes =>
     projs.foldl (fun acc k => addArr acc (applyKrausDM conj shape rho k axes)) (Array.replicate rho.size 0)
   | .controlled _ _ => rho
 
